@@ -300,16 +300,11 @@ func PrepareItem(t *rapid.T, label string, r Req, i int, id WireID, sq, sib *vk.
 		if rapid.IntRange(0, 3).Draw(t, l+".chunked") == 0 {
 			st.Chunk = rapid.IntRange(1, 64).Draw(t, l+".chunk")
 		}
-		if bounds := messageBoundaries(body); r.Kind == "nd" && len(bounds) >= 3 &&
-			(kind == "other-id" || kind == "other-square" || kind == "garbled" || kind == "extended" || kind == "repeated") &&
-			rapid.IntRange(0, 2).Draw(t, l+".rowprefix") == 0 {
-			// a namespace that spans several rows: answer with a prefix of the row messages (well-formed
-			// on the wire, incomplete)
-			st.Kind = "structural:nd-row-prefix"
-			st.Data = append(append([]byte(nil), okFrame...), body[:bounds[rapid.IntRange(1, len(bounds)-2).Draw(t, l+".rows")]]...)
-			st.Honest = false
-			it.Steps = append(it.Steps, st)
-			continue
+		if r.Kind == "nd" && (kind == "other-id" || kind == "other-square" || kind == "garbled" || kind == "extended" || kind == "repeated") &&
+			rapid.IntRange(0, 2).Draw(t, l+".ndstructural") == 0 {
+			// namespace-data requests are one kind in seven: give their well-formed forgeries (a prefix
+			// of the row messages, a row without its proof) more weight than the script's draw does
+			kind = "structural"
 		}
 		switch kind {
 		case "honest":
@@ -342,9 +337,20 @@ func PrepareItem(t *rapid.T, label string, r Req, i int, id WireID, sq, sib *vk.
 			switch r.Kind {
 			case "nd":
 				bounds := messageBoundaries(body)
-				if len(bounds) >= 3 { // at least two messages
+				if len(bounds) >= 3 && rapid.Bool().Draw(t, l+".ndprefix") { // at least two messages
 					b = body[:bounds[rapid.IntRange(1, len(bounds)-2).Draw(t, l+".rows")]]
 					st.Kind = "structural:nd-row-prefix"
+				} else if nd, err := eds.NamespaceData(context.Background(), &eds.Rsmt2D{ExtendedDataSquare: sq.EDS}, r.NS); err == nil && len(nd) > 0 {
+					// the honest rows, one of them sent without its proof (shares kept)
+					k := rapid.IntRange(0, len(nd)-1).Draw(t, l+".noproofrow")
+					if len(nd[k].Shares) > 0 {
+						nd[k].Proof = nil
+						var buf bytes.Buffer
+						if _, err := nd.WriteTo(&buf); err == nil {
+							b = buf.Bytes()
+							st.Kind = "structural:nd-row-noproof"
+						}
+					}
 				}
 			case "samples":
 				c := r.Coords[i]
